@@ -1357,6 +1357,24 @@ func (e *Env) evalCall(n *ECall) SVal {
 		v := e.eval(n.Args[0])
 		e.resIdx = saved
 		return v
+	case "strof":
+		// strof(b): the Go conversion string(b) of a byte slice (the symbol the executor uses for it)
+		b := e.eval(n.Args[0])
+		sl, ok := b.typ.Underlying().(*types.Slice)
+		if !ok {
+			e.fail("strof: byte slice expected")
+		}
+		vc.d.declFun("str.of.bytes", "(declare-fun str.of.bytes ((Array Int Int) Int Int) Int)")
+		hn, hs := vc.d.elemHeap(sl.Elem())
+		t := fmt.Sprintf("(str.of.bytes (select %s (s-arr %s)) (s-off %s) (s-len %s))", vc.heap(e.stOf(b), hn, hs), b.t, b.t, b.t)
+		e.addSide(fmt.Sprintf("(and (>= %s 0) (= (strlen %s) (s-len %s)))", t, t, b.t), t)
+		return SVal{t: t, typ: types.Typ[types.String], sort: "Int", st: b.st}
+	case "bytesof":
+		// bytesof(s, i): the i-th byte of the string s (as the conversion []byte(s) yields it)
+		sv := e.eval(n.Args[0])
+		i := e.evalInt(n.Args[1])
+		vc.d.declFun("bytes.of.str", "(declare-fun bytes.of.str (Int) (Array Int Int))")
+		return mathInt(fmt.Sprintf("(select (bytes.of.str %s) %s)", sv.t, i))
 	case "strcat":
 		// strcat(a, b): Go string concatenation a + b (the symbol the executor uses for it)
 		a, b := e.eval(n.Args[0]), e.eval(n.Args[1])
